@@ -20,8 +20,14 @@ MODE = param("mode", "layout")
 NG = 10          # gap variables
 NC = 5           # indentation levels
 
-_items = (skel.extra_programs(LANG)[LABEL] if LABEL.startswith("x-") else dict(skel.programs(LANG, TIER))[LABEL]) if LABEL else None
-SK = skel.Skeleton(LANG, _items, LABEL, comments=("col1" if LABEL.startswith("cmt1-") else "hostile" if LABEL.startswith("cmtx-") else LABEL.startswith("cmt-"))) if LABEL else None
+CORPUS = bool(LABEL) and LABEL.startswith("corpus:")
+BSEL = param("bsel", 0)        # corpus files: which residue class of the token-safe lines carries the symbolic gaps
+if CORPUS:
+    _items = None
+    SK = skel.Skeleton(LANG, None, LABEL, text=dict(skel.corpus_files(LANG))[LABEL])
+else:
+    _items = (skel.extra_programs(LANG)[LABEL] if LABEL.startswith("x-") else dict(skel.programs(LANG, TIER))[LABEL]) if LABEL else None
+    SK = skel.Skeleton(LANG, _items, LABEL, comments=("col1" if LABEL.startswith("cmt1-") else "hostile" if LABEL.startswith("cmtx-") else LABEL.startswith("cmt-"))) if LABEL else None
 LANGUAGE = capture.language(LANG)
 FAM = skel.LANGS[LANG]["fam"]
 
@@ -52,6 +58,39 @@ if SK:
     LINE_COMMENT_T = PT.Comment.Single
     BLOCK_COMMENT = None if FAM == "py" else "/* c */"
     NOCL_TEXT = "# NoCL reason" if FAM == "py" else "// nocl"
+SAFE_TRAIL = None     # None: every line (generated programs); corpus files: the lines after which a trailing comment was validated with the real lexer
+if SK and CORPUS:
+    from pygments.lexers import get_lexer_by_name as _glbn
+    from pygments.token import Comment as _Comment
+    _lexer = _glbn(skel.LANGS[LANG]["lexer"])
+
+    def _code_of(text):
+        return [(str(ty), v) for _o, ty, v in _lexer.get_tokens_unprocessed(text) if v.strip() != "" and ty not in _Comment]
+
+    def _comments_of(text):
+        return [v for _o, ty, v in _lexer.get_tokens_unprocessed(text) if ty in _Comment]
+    _lines = SK.text.split("\n")
+    _code0, _cm0 = _code_of(SK.text), _comments_of(SK.text)
+
+    def _safe(j, what):
+        """token-safe insertion point, decided by the real lexer on the concretely modified text: the code tokens stay the same and the inserted comment is one more comment"""
+        ls = list(_lines)
+        if what == "gap":
+            ls.insert(j - 1, "")
+        elif what == "line":
+            ls.insert(j - 1, "   " + LINE_COMMENT)
+        else:
+            ls[j - 1] = ls[j - 1] + " " + what
+        t = "\n".join(ls)
+        if _code_of(t) != _code0:
+            return False
+        return what == "gap" or len(_comments_of(t)) == len(_cm0) + 1
+    _trail = lambda j: (BLOCK_COMMENT if (BLOCK_COMMENT and j % 2 == 0) else LINE_COMMENT)
+    _cand = [j for j in TOK_LINES if _safe(j, "gap") and (MODE != "comments" or _safe(j, "line"))]
+    SAFE_TRAIL = {j for j in TOK_LINES if _safe(j, _trail(j))} if MODE == "comments" else set()
+    _step = max(1, -(-len(_cand) // NG))
+    BOUNDS = _cand[BSEL % _step::_step][:NG]
+    N_SAFE, N_STEP = len(_cand), _step
 WS_LINES = ["\x0c", " \t ", "\x0b"]       # whitespace-only lines: form feed (page break), blank + tab, vertical tab
 WS_LEAD = ["   ", "\x0c  ", "\t  "]        # whitespace token in front of a comment-only line (3 characters each)
 
@@ -70,7 +109,7 @@ def _pre(gs, cs):
     prev = 0
     for k, c in enumerate(cs):
         if k < NLEVELS:
-            if c <= prev:
+            if c <= prev or (CORPUS and c != 1 + 2 * k):     # real-world files keep their indentation (C04 is about lines, comments and blanks)
                 return False
             prev = c
         elif c != 0:
@@ -110,7 +149,7 @@ def _tokens(gs, cs, extra_comments=False, nocl_line=None):
             out.append(Token(Location(nl[ln] - 1, 1), PT.Text.Whitespace, WS_LEAD[k % len(WS_LEAD)]))
             out.append(Token(Location(nl[ln] - 1, 4), LINE_COMMENT_T, LINE_COMMENT))
         out.append(Token(Location(nl[ln], _col(t, cs)), t.token_type, t.value))
-        if extra_comments and LAST_TOK_OF_LINE[ln] is t and "\n" not in t.value and not t.value.endswith("\\"):
+        if extra_comments and LAST_TOK_OF_LINE[ln] is t and "\n" not in t.value and not t.value.endswith("\\") and (SAFE_TRAIL is None or ln in SAFE_TRAIL):
             endc = _col(t, cs) + len(t.value)
             out.append(Token(Location(nl[ln], endc), PT.Text.Whitespace, " "))
             if BLOCK_COMMENT and (ln % 2 == 0):
@@ -247,8 +286,8 @@ def _render(gs, cs, extra_comments=False, nocl_line=None):
         if stripped == "" or j not in LEVEL:
             out.append(ln)
             continue
-        body = " " * (cs[LEVEL[j]] + EXTRA[j] - 1) + stripped if LEVEL[j] < NC else ln
-        if extra_comments and "\n" not in LAST_TOK_OF_LINE[j].value and not LAST_TOK_OF_LINE[j].value.endswith("\\"):
+        body = ln if CORPUS else (" " * (cs[LEVEL[j]] + EXTRA[j] - 1) + stripped if LEVEL[j] < NC else ln)
+        if extra_comments and "\n" not in LAST_TOK_OF_LINE[j].value and not LAST_TOK_OF_LINE[j].value.endswith("\\") and (SAFE_TRAIL is None or j in SAFE_TRAIL):
             body += " " + (BLOCK_COMMENT if (BLOCK_COMMENT and j % 2 == 0) else LINE_COMMENT)
         out.append(body)
     if nocl_line is not None:
